@@ -327,9 +327,9 @@ func genValueDepth(t *rapid.T, depth int) *pb.TypedValue {
 	case 10:
 		return genLeaflist(t, depth)
 	case 11:
-		return &pb.TypedValue{Value: &pb.TypedValue_JsonVal{JsonVal: []byte(genStr(t, "j", []string{`{"a":1}`, `not json`, ``, `[[[[[[[[[[1]]]]]]]]]]`}))}}
+		return &pb.TypedValue{Value: &pb.TypedValue_JsonVal{JsonVal: []byte(genStr(t, "j", append([]string{`{"a":1}`, `not json`, ``, `[[[[[[[[[[1]]]]]]]]]]`}, jsonFragments...)))}}
 	case 12:
-		return &pb.TypedValue{Value: &pb.TypedValue_JsonIetfVal{JsonIetfVal: []byte(genStr(t, "ji", []string{`[1,2]`, `{`, ``}))}}
+		return &pb.TypedValue{Value: &pb.TypedValue_JsonIetfVal{JsonIetfVal: []byte(genStr(t, "ji", append([]string{`[1,2]`, `{`, ``}, jsonFragments...)))}}
 	case 13:
 		return &pb.TypedValue{Value: &pb.TypedValue_AsciiVal{AsciiVal: genStr(t, "ascii", []string{"ascii"})}}
 	case 14:
@@ -348,7 +348,7 @@ func genTimestamp(t *rapid.T) int64 {
 func genUpdate(t *rapid.T) *pb.Update {
 	u := &pb.Update{Path: genPath(t, true), Val: genValue(t)}
 	if rapid.IntRange(0, 7).Draw(t, "deprecatedvalue") == 0 {
-		u.Value = &pb.Value{Value: []byte(genStr(t, "dv", []string{`1`, `{"a":1}`, `x`, ``})), Type: pb.Encoding(genEnum(t, "enc", 5))}
+		u.Value = &pb.Value{Value: []byte(genStr(t, "dv", jsonFragments)), Type: pb.Encoding(genEnum(t, "enc", 5))}
 		if rapid.Bool().Draw(t, "onlydeprecated") {
 			u.Val = nil
 		}
@@ -505,3 +505,8 @@ func genSubscribeResponse(t *rapid.T) *pb.SubscribeResponse {
 		return &pb.SubscribeResponse{Response: &pb.SubscribeResponse_Update{Update: n}}
 	}
 }
+
+// jsonFragments: documents for the deprecated Update.value field (decoded as JSON by receivers
+// when the type says so): well-formed ones of every kind, and the shortest malformed ones —
+// a lone delimiter, an unterminated or empty string, a truncated escape, surrounding blanks.
+var jsonFragments = []string{`1`, `{"a":1}`, `x`, ``, `"`, `""`, `"a`, `a"`, `"a"`, ` "a" `, `"\`, `"\"`, `"\u00`, `[`, `]`, `{`, `[1,`, `{}`, `[]`, `null`, `nul`, `true`, `-`, `-0`, `1e999`, ` `, "\n", `"a" "b"`, "\"\x00\""}
